@@ -140,7 +140,9 @@ def gen_recipe(rng: Rng, tier: str, idx: int) -> dict:
         "file_name": fname,
         "verbose": rng.chance(0.3),
         "backend": rng.weighted([("fd", 3), ("nofileno", 2)]),
-        "preexisting": rng.weighted([("none", 4), ("both", 2), ("data_only", 1), ("model_only", 1)]),
+        # symlink_model: the destination itself is a symlink to a blob elsewhere (cache-style layout);
+        # symlink_dir: its parent directory is a symlink
+        "preexisting": rng.weighted([("none", 8), ("both", 4), ("data_only", 2), ("model_only", 2), ("symlink_model", 2), ("symlink_dir", 1)]),
     }
     return {"idx": idx, "inits": inits, "uninit": uninit, "cfg": cfg, "extras": extras}
 
